@@ -432,12 +432,13 @@ func (s *badgerStore) UpdateNodePeers(nodeID store.NodeID, peers []string, block
 	nodeKey := []byte(fmt.Sprintf("vip:node:%s", nodeID))
 	peersKey := []byte(fmt.Sprintf("vip:peers:%s", nodeID))
 	now := time.Now()
-	var node store.Node
-	nodePeers := map[store.NodeID]time.Time{}
 	err = s.update(func(txn *badger.Txn) error {
-		// The transaction is retried on conflict, start from scratch each time.
+		// The transaction is retried on conflict, start from scratch each
+		// time: gob leaves fields that are zero in the stored record as they
+		// are, a record decoded over the previous attempt's would keep them.
 		inactive = nil
-		nodePeers = map[store.NodeID]time.Time{}
+		var node store.Node
+		nodePeers := map[store.NodeID]time.Time{}
 
 		// Update this node's LastSeen
 		if err := getItem(txn, nodeKey, &node); err == badger.ErrKeyNotFound {
